@@ -89,6 +89,41 @@ def holder_dicts(h):
             "vw": h.get_virtual_world(), "out": h.get_output()}
 
 
+def _mutable_ids(obj, seen):
+    """ids of every mutable object (dict, list, holder) reachable from obj"""
+    if isinstance(obj, (str, int, float, bool, type(None))):
+        return
+    if id(obj) in seen:
+        return
+    if isinstance(obj, dict):
+        seen[id(obj)] = obj
+        for v in obj.values():
+            _mutable_ids(v, seen)
+    elif isinstance(obj, (list, tuple)):
+        seen[id(obj)] = obj
+        for v in obj:
+            _mutable_ids(v, seen)
+    elif hasattr(obj, "__dict__"):
+        seen[id(obj)] = obj
+        for v in vars(obj).values():
+            _mutable_ids(v, seen)
+
+
+def shared_objects(base_holder, set_holders):
+    """mutable objects shared BY IDENTITY between the base holder and any produced set"""
+    b = {}
+    _mutable_ids(base_holder, b)
+    out = []
+    for i, s in enumerate(set_holders):
+        t = {}
+        _mutable_ids(s, t)
+        for k in t:
+            if k in b:
+                o = b[k]
+                out.append((i, type(o).__name__, repr(o if not hasattr(o, "to_dict") else o.to_dict())[:80]))
+    return out
+
+
 def real_vary(base, level, n, variations, sens="auto"):
     """base = {sim, programs, vw, out} (plain dictionaries, `baseline_program` inside sim).
     Returns (outcome, info): outcome = ('ok', [set dicts]) | ('reject', kind, detail);
@@ -103,12 +138,16 @@ def real_vary(base, level, n, variations, sens="auto"):
     before_v = canon(vars_in)
     sp = holder.get_non_baseline_program() if sens == "auto" else sens
 
+    shared = []
+
     def f():
         sets = _pv.vary_parameter_values(holder, sp, level, n, vars_in)
+        shared.extend(shared_objects(holder, sets))
         return [holder_dicts(s) for s in sets]
 
     r = _guard(f)
     info = {
+        "shared_with_base": shared,
         "sens": sp,
         "base_dicts_unchanged": before_d == canon([sim, progs, vw, out]),
         "base_holder_unchanged": before_h == canon(holder_dicts(holder)),
@@ -139,3 +178,42 @@ def real_sens_info(scratch_dir, description):
         return info
 
     return _guard(f)
+
+
+def real_manager(paths, level, n, variations):
+    """the route a sensitivity run really takes: SensitivitySimulationManager reads the files,
+    builds the holder (generate_parameters_holder), setup_for_sensitivity_analysis varies it, and
+    set_simulation_parameters hands the dictionaries of each set to the simulation.  The results
+    manager and the output-folder initialisation are stubbed (they only touch the file system)."""
+    import contextlib
+    import io
+    import simulation.sensitivity_simulation_manager as ssm
+    from file_processing.input_processing.input_manager import InputManager
+
+    class _StubResults:
+        def __init__(self, **kw):
+            self.kw = kw
+
+    orig = ssm.SensitivityAnalysisResultsManager
+    ssm.SensitivityAnalysisResultsManager = _StubResults
+
+    def f():
+        with T.in_repo(), contextlib.redirect_stdout(io.StringIO()):
+            mgr = ssm.SensitivitySimulationManager(InputManager(), list(paths))
+            mgr.initialize_original_outputs = lambda: None
+            info = {_sm.PARAM_LEVEL: level, _sm.NUM_SENS_SETS: n,
+                    _sm.PARAM_VARIATIONS: copy.deepcopy(variations),
+                    _sm.SENS_SUMMARY_INFO: {"Confidence Interval": [85]}}
+            mgr.setup_for_sensitivity_analysis(info)
+            out = []
+            for sp in mgr.sensitivity_simulation_parameters:
+                mgr.set_simulation_parameters(sp)
+                out.append({"sim": copy.deepcopy(mgr.sim_params), "programs": copy.deepcopy(mgr.programs),
+                            "vw": copy.deepcopy(mgr.virtual_world), "out": copy.deepcopy(mgr.output_params),
+                            "methods": sorted(map(str, mgr.methods)), "base_program": mgr.base_program})
+            return {"sets": out, "sens": mgr.sensitivity_program}
+
+    try:
+        return _guard(f)
+    finally:
+        ssm.SensitivityAnalysisResultsManager = orig
